@@ -138,8 +138,11 @@ impl World {
                 }
             }
             "revive" => {
-                if let Some(k) = self.known.get_mut(&idn(&op["id"])) {
-                    k.live = true;
+                let v = if op["ids"].is_array() { ids(&op["ids"]) } else { vec![idn(&op["id"])] };
+                for n in v {
+                    if let Some(k) = self.known.get_mut(&n) {
+                        k.live = true;
+                    }
                 }
             }
             _ => {}
@@ -218,7 +221,15 @@ pub fn exec(w: &mut QueryServerWriteTransaction, a: &str, op: &J) -> Result<(), 
                 w.internal_delete(&f)
             }
         }
-        "revive" => kd::revive_uuid(w, u("id")),
+        "revive" => {
+            // one revive operation over a set of ids (older replay files carry a single "id")
+            let v: Vec<Uuid> = if op["ids"].is_array() { ids(&op["ids"]).into_iter().map(uuid_e).collect() } else { vec![u("id")] };
+            if v.len() == 1 {
+                kd::revive_uuid(w, v[0])
+            } else {
+                kd::revive_uuids(w, &v)
+            }
+        }
         "purge_recycled" => w.purge_recycled().map(|_| ()),
         "purge_tombstones" => w.purge_tombstones().map(|_| ()),
         "domain_rename" => w.danger_domain_rename(op["dom"].as_str().unwrap_or("example.com")),
@@ -388,12 +399,12 @@ impl Gen {
         let x = self.any_live(w, r);
         let u = self.live_of(w, r, &[Kind::Usr, Kind::Svc]);
         let which: &[u64] = match self.focus.as_str() {
-            "C16" => &[1, 2, 1, 2, 6],
-            "C17" => &[3, 3, 7, 1],
+            "C16" => &[1, 2, 1, 2, 6, 8],
+            "C17" => &[3, 3, 7, 1, 8],
             "C18" => &[5, 5, 4],
             "C22" => &[4, 4, 7],
-            "C26" => &[6, 2, 1, 6],
-            _ => &[1, 2, 3, 4, 5, 6, 7],
+            "C26" => &[6, 2, 1, 8, 8],
+            _ => &[1, 2, 3, 4, 5, 6, 7, 8],
         };
         let mut q: Vec<J> = vec![];
         match *r.pick(which) {
@@ -402,7 +413,7 @@ impl Gen {
                 if let (Some(g), Some(x)) = (g, x) {
                     if g != x {
                         q = vec![json!({"a":"add_member","g":eid(g),"x":eid(x)}), json!({"a":"delete","ids":[eid(g)]}),
-                                 json!({"a":"delete","ids":[eid(x)]}), json!({"a":"revive","id":eid(g)}), json!({"a":"revive","id":eid(x)})];
+                                 json!({"a":"delete","ids":[eid(x)]}), json!({"a":"revive","ids":[eid(g)]}), json!({"a":"revive","ids":[eid(x)]})];
                     }
                 }
             }
@@ -412,7 +423,7 @@ impl Gen {
                     let c = w.next_id;
                     w.next_id += 1;
                     q = vec![json!({"a":"create_cert","id":eid(c),"r":eid(u)}), json!({"a":"delete","ids":[eid(u)]}),
-                             json!({"a":"revive","id":eid(c)}), json!({"a":"revive","id":eid(u)})];
+                             json!({"a":"revive","ids":[eid(c)]}), json!({"a":"revive","ids":[eid(u)]})];
                 }
             }
             3 => {
@@ -428,7 +439,7 @@ impl Gen {
             4 => {
                 // domain renamed while an entry sits in the recycle bin
                 if let Some(x) = x {
-                    q = vec![json!({"a":"delete","ids":[eid(x)]}), json!({"a":"domain_rename","dom":*r.pick(&DOMS)}), json!({"a":"revive","id":eid(x)})];
+                    q = vec![json!({"a":"delete","ids":[eid(x)]}), json!({"a":"domain_rename","dom":*r.pick(&DOMS)}), json!({"a":"revive","ids":[eid(x)]})];
                 }
             }
             5 => {
@@ -436,7 +447,7 @@ impl Gen {
                 let d = self.live_of(w, r, &[Kind::Dyn]);
                 if let (Some(d), Some(u)) = (d, u) {
                     q = vec![json!({"a":"set_desc","id":eid(u),"d":*r.pick(&DESCS)}), json!({"a":"delete","ids":[eid(u)]}),
-                             json!({"a":"set_filter","d":eid(d),"f":rand_filter(r, 1)}), json!({"a":"revive","id":eid(u)}),
+                             json!({"a":"set_filter","d":eid(d),"f":rand_filter(r, 1)}), json!({"a":"revive","ids":[eid(u)]}),
                              json!({"a":"set_desc","id":eid(u),"d":*r.pick(&DESCS)})];
                 }
             }
@@ -444,13 +455,23 @@ impl Gen {
                 // a full trip through the bin: just before / after the retention period, then the changelog window
                 if let Some(x) = x {
                     q = vec![json!({"a":"delete","ids":[eid(x)]}), json!({"a":"purge_recycled","dt":RMAX - 1}), json!({"a":"purge_recycled","dt":2}),
-                             json!({"a":"revive","id":eid(x)}), json!({"a":"purge_tombstones","dt":CMAX - 2}), json!({"a":"purge_tombstones","dt":3})];
+                             json!({"a":"revive","ids":[eid(x)]}), json!({"a":"purge_tombstones","dt":CMAX - 2}), json!({"a":"purge_tombstones","dt":3})];
+                }
+            }
+            8 => {
+                // two members of the same group leave and come back in ONE delete / ONE revive operation
+                let y = self.any_live(w, r);
+                if let (Some(g), Some(x), Some(y)) = (g, x, y) {
+                    if x != y && g != x && g != y {
+                        q = vec![json!({"a":"add_member","g":eid(g),"x":eid(x)}), json!({"a":"add_member","g":eid(g),"x":eid(y)}),
+                                 json!({"a":"delete","ids":[eid(x), eid(y)]}), json!({"a":"revive","ids":[eid(x), eid(y)]})];
+                    }
                 }
             }
             _ => {
                 // a group with members goes through the bin
                 if let (Some(g), Some(x)) = (g, x) {
-                    q = vec![json!({"a":"add_member","g":eid(g),"x":eid(x)}), json!({"a":"delete","ids":[eid(g)]}), json!({"a":"revive","id":eid(g)})];
+                    q = vec![json!({"a":"add_member","g":eid(g),"x":eid(x)}), json!({"a":"delete","ids":[eid(g)]}), json!({"a":"revive","ids":[eid(g)]})];
                 }
             }
         }
@@ -538,7 +559,17 @@ impl Gen {
                 v.dedup();
                 json!({"a":"delete","ids":v})
             }
-            "revive" => json!({"a":"revive","id":eid(if r.chance(1,10) { self.target(w, r) } else { recycled(self, w, r).unwrap_or(91) })}),
+            "revive" => {
+                let mut v = vec![eid(if r.chance(1, 10) { self.target(w, r) } else { recycled(self, w, r).unwrap_or(91) })];
+                if r.chance(1, 4) {
+                    for _ in 0..r.range(1, 2) {
+                        v.push(eid(recycled(self, w, r).unwrap_or(91)));
+                    }
+                    v.sort();
+                    v.dedup();
+                }
+                json!({"a":"revive","ids":v})
+            }
             "purge_recycled" => json!({"a":"purge_recycled"}),
             "purge_tombstones" => json!({"a":"purge_tombstones"}),
             "domain_rename" => json!({"a":"domain_rename","dom":*r.pick(&DOMS)}),
@@ -567,6 +598,11 @@ async fn run_history(tr: &mut Tracer, hid: u64, ops: Option<&[J]>, g: &Gen, step
             m.remove("st");
             m.remove("res");
             m.remove("full");
+            // revive is logged over a SET of ids (older files name a single id)
+            if m.get("a").and_then(|a| a.as_str()) == Some("revive") && !m.contains_key("ids") {
+                let one = m.remove("id").unwrap_or(json!("e0"));
+                m.insert("ids".into(), json!([one]));
+            }
         }
         let res = w.apply(&op).await;
         let full = wants_full(&op, i + 1);
